@@ -36,7 +36,11 @@ def main():
             print(f"replay names broken obligations, no input: {rp.get('broken_obligations')}")
             print(json.dumps(rp.get("first_disagreement"), indent=1)[:3000])
             sys.exit(0)
-        ok = mod.replay(ctx, rp["case"])
+        try:
+            ok = mod.replay(ctx, rp["case"])
+        finally:
+            import shutil
+            shutil.rmtree(ctx.tmp, ignore_errors=True)
         print("replay:", "property holds on this case now" if ok else "property FAILS on this case")
         sys.exit(0 if ok else 1)
 
@@ -45,6 +49,8 @@ def main():
         if args.tier == "thorough" and not ctx.broken:
             ctx.thorough_recheck()
     if args.build_only:
+        import shutil
+        shutil.rmtree(ctx.tmp, ignore_errors=True)
         print("broken:", ctx.broken)
         sys.exit(1 if ctx.broken else 0)
     try:
@@ -52,10 +58,12 @@ def main():
     except common.coqio_ModelEvalError as e:  # model could not be evaluated: broken correspondence
         ctx.broke("model evaluation failed (correspondence cannot be established): " + str(e)[-800:])
     except Exception:
-        # a harness crash is not a verdict about the code
-        traceback.print_exc()
-        print(f"ERROR: harness for {prop} crashed", file=sys.stderr)
-        sys.exit(2)
+        # The correspondence run could not be completed (typically the implementation raised where the harness
+        # did not expect it).  On the unchanged tree this does not happen; when it does, the tie between model and
+        # code is not established, which is reported like any other broken correspondence (no failing input known).
+        tb = traceback.format_exc()
+        print(tb, file=sys.stderr)
+        ctx.broke("correspondence run aborted by an unexpected exception: " + " | ".join(tb.strip().splitlines()[-4:])[-900:])
     sys.exit(ctx.finish())
 
 
